@@ -155,6 +155,12 @@ def main(REG):
     os.makedirs(os.path.join(V, "evidence"), exist_ok=True)
     os.makedirs(os.path.join(V, "replays"), exist_ok=True)
     work = os.path.join(V, "work", prop)
+    # two runs of the same property share work/<prop>: serialise them (a second run waits for the first)
+    import fcntl
+    os.makedirs(os.path.join(V, "work"), exist_ok=True)
+    _lock = open(os.path.join(V, "work", prop + ".lock"), "w")
+    fcntl.flock(_lock, fcntl.LOCK_EX)
+    t0 = time.time()
     shutil.rmtree(work, ignore_errors=True)
     os.makedirs(work, exist_ok=True)
 
